@@ -27,9 +27,14 @@ Lemma evs_error_handler phi psi (h : M unit) :
   evs_all phi psi h -> evs_all phi psi (with_error_handler E h).
 Proof. intros Hh. unfold with_error_handler. repeat first [exact Hh | evs_step]. Qed.
 
+Lemma evs_remembered_view phi psi s : evs_all phi psi (remembered_view s).
+Proof.
+  unfold remembered_view. apply evs_bind; [apply evs_get_h|]. intros h. destruct (h_cpid h); apply evs_ret.
+Qed.
+
 Ltac hs :=
   first
-  [ apply neutral_login_get | apply neutral_otp_login_get | apply neutral_otp_add_post | apply neutral_otp_clear_post
+  [ apply evs_remembered_view | apply neutral_login_get | apply neutral_otp_login_get | apply neutral_otp_add_post | apply neutral_otp_clear_post
   | apply neutral_otp_show | apply neutral_confirm_get | apply neutral_recover_start_post | apply neutral_recover_end_get
   | apply neutral_recovery_regen_get | apply neutral_recovery_regen_post | apply neutral_email_verify_get
   | apply neutral_email_verify_post | apply neutral_email_verify_end | apply neutral_email_verify_wrap
@@ -95,7 +100,7 @@ Lemma nodrop_app_stack_noexpire full tf fr l c rmw :
 Proof.
   unfold app_stack.
   repeat (unfold_derived; cbn beta iota;
-          first [ apply nodrop_remember_mw
+          first [ apply nodrop_remember_mw | apply evs_remembered_view
                 | apply nodrop_of_neutral; first [hs | apply neutral_app_handler]
                 | evs_step ]); try side.
 Qed.
